@@ -133,3 +133,230 @@ def run(tier, seed):
 if __name__ == "__main__":
     ob = run("quick", 0)
     print(ob["harness"], ob.get("verdict"), str(ob.get("message", ""))[:700], str(ob.get("counterexample"))[:500], ob.get("queries"), ob.get("solver_s"), str(ob.get("sample"))[:400])
+
+
+def run_reads(tier, seed):
+    """C02 at the catalogue level: which files a read reaches, and what a rollover records.
+    RaftLogManager::{get_query_log_actors, get_load_log_actors, switch_new_log} from source over the same catalogue shapes; the
+    read range [start, end) is symbolic, the rollover index symbolic. Oracle: every file that holds an index of the range is asked,
+    in ascending order (asking more files is harmless: each file answers only for its own range); a rollover closes the current file
+    with record_count = next index - its first index, opens a file that starts at the next index, and sends the index manager the
+    whole catalogue."""
+    t0 = time.time()
+    ob = {"engine": "smt", "harness": "s02_6_catalogue_reads_and_rollover", "encodes_files": FILES, "queries": 0, "solver_s": 0.0, "distinct": 0,
+          "encodes": ["RaftLogManager::{get_query_log_actors,get_load_log_actors,switch_new_log}", "LogRangeWrap::get_log_range_end_index"],
+          "bound": "catalogues: %s; every read range 0 <= start < end <= %d and every rollover index up to %d (symbolic)" % ("; ".join(CATALOGUES), MAX_CUT, MAX_CUT + 8)}
+    try:
+        prog = load_program(FILES)
+        it = rseval.Interp(prog)
+        it.lenient = True
+        sent_index = []
+
+        class IndexAddr:
+            ty = "IndexAddr"
+        it.models[("IndexAddr", "do_send")] = lambda interp, recv, args: sent_index.append(args[0]) or ()
+        it.fn_models["Self::create_log_actor"] = lambda interp, args: Actor("new-file-%s" % (args[1]["id"] if isinstance(args[1], Struct) else "?"))
+        it.fn_models["create_log_actor"] = it.fn_models["Self::create_log_actor"]
+        st, en, nxt = z3.BitVec("read_start", 64), z3.BitVec("read_end", 64), z3.BitVec("rollover_index", 64)
+        viol = None
+        npaths = 0
+        s = z3.Solver()
+        for cname, files in CATALOGUES.items():
+            def mk():
+                logs = []
+                for fid, start, count in files:
+                    # the open file is partly compacted: its split-off index lies above its first index
+                    rng = Struct("LogRange", {"id": fid, "pre_term": 0, "start_index": start, "record_count": count if count is not None else 0,
+                                              "split_off_index": start + (2 if count is None else 0), "is_close": count is not None, "mark_remove": False})
+                    logs.append(Struct("LogRangeWrap", {"log_range": rng, "log_actor": Some(Actor("file-%d" % fid))}))
+                return Struct("RaftLogManager", {"logs": logs, "current_log_actor": logs[-1]["log_actor"], "base_path": "p", "index_info": NONE, "last_applied_log": 0,
+                                                 "index_manager": Some(IndexAddr()), "pre_ready_snapshot_pointer": NONE, "last_ready_snapshot_pointer": NONE, "is_init": True})
+            for fn_name in ("get_query_log_actors", "get_load_log_actors"):
+                def thunk(fn_name=fn_name):
+                    mgr = mk()
+                    args = ["ctx", st, en] if fn_name == "get_query_log_actors" else [st, en]
+                    r = it.call_method("RaftLogManager", fn_name, mgr, args)
+                    return [a.name for a in r]
+                it.solver.push()
+                it.solver.add(z3.ULT(st, en), z3.ULE(en, MAX_CUT))
+                paths = it.explore(thunk)
+                it.solver.pop()
+                npaths += len(paths)
+                for pc, names, exc in paths:
+                    if exc is not None:
+                        viol = {"message": "panic in %s: %s" % (fn_name, exc), "tags": ["panic"], "model": {"catalogue": cname}}
+                        break
+                    for a in range(MAX_CUT):
+                        for b in range(a + 1, MAX_CUT + 1):
+                            need = ["file-%d" % fid for fid, fs_, cnt in files if a < (fs_ + cnt if cnt is not None else 1 << 62) and b > fs_]
+                            asc = names == sorted(names, key=lambda n: int(n.split("-")[-1]))
+                            if all(n in names for n in need) and asc:
+                                continue
+                            s.push()
+                            s.add(*pc)
+                            s.add(st == a, en == b)
+                            ob["queries"] += 1
+                            if s.check() == z3.sat:
+                                viol = {"message": "%s(%d, %d) asks files %s; the entries of that range live in %s [catalogue: %s]" % (fn_name, a, b, names, need, cname),
+                                        "tags": ["read-misses-a-file" if asc else "read-order"], "model": {"catalogue": cname, "files": files, "start": a, "end": b, "asked": names}}
+                            s.pop()
+                            if viol:
+                                break
+                        if viol:
+                            break
+                    if viol:
+                        break
+                if viol:
+                    break
+            if viol:
+                break
+            # rollover
+            first_of_last = files[-1][1]
+
+            def thunk2():
+                del sent_index[:]
+                mgr = mk()
+                it.call_method("RaftLogManager", "switch_new_log", mgr, ["ctx", nxt, 7])
+                return [dict(w["log_range"]) for w in mgr["logs"]], list(sent_index)
+            it.solver.push()
+            it.solver.add(z3.UGE(nxt, first_of_last + 2), z3.ULE(nxt, MAX_CUT + 8))
+            paths = it.explore(thunk2)
+            it.solver.pop()
+            npaths += len(paths)
+            for pc, r, exc in paths:
+                if exc is not None:
+                    viol = {"message": "panic in switch_new_log: %s" % exc, "tags": ["panic"], "model": {"catalogue": cname}}
+                    break
+                ranges, msgs = r
+                bad = []
+                if len(ranges) != len(files) + 1:
+                    bad.append((z3.BoolVal(True), "a rollover leaves %d files in the catalogue, %d expected" % (len(ranges), len(files) + 1)))
+                else:
+                    old, new = ranges[-2], ranges[-1]
+                    bad.append((z3.BoolVal(old["is_close"] is not True), "a rollover does not close the file it leaves"))
+                    bad.append((rseval.to_bv(old["record_count"]) != nxt - first_of_last, "a rollover records a wrong number of entries for the file it closes"))
+                    bad.append((rseval.to_bv(new["start_index"]) != nxt, "the new log file does not start at the next index"))
+                    bad.append((z3.BoolVal(new["is_close"] is not False), "the new log file is not open"))
+                    bad.append((z3.BoolVal(new["id"] != old["id"] + 1), "the new log file does not get the next id"))
+                saves = [m for m in msgs if (isinstance(m, Enum) and m.variant == "SaveLogs") or (isinstance(m, Uninterp) and m.name.endswith("SaveLogs"))]
+                if len(saves) != 1:
+                    bad.append((z3.BoolVal(True), "a rollover sends the catalogue to the index manager %d times" % len(saves)))
+                else:
+                    lst = saves[0].payload[0] if isinstance(saves[0], Enum) else saves[0].args[0]
+                    if [x["id"] for x in lst] != [x["id"] for x in ranges]:
+                        bad.append((z3.BoolVal(True), "the catalogue saved at a rollover (%s) is not the catalogue in memory (%s)" % ([x["id"] for x in lst], [x["id"] for x in ranges])))
+                for cond, msg in bad:
+                    s.push()
+                    s.add(*pc)
+                    s.add(z3.UGE(nxt, first_of_last + 2), z3.ULE(nxt, MAX_CUT + 8), cond)
+                    ob["queries"] += 1
+                    if s.check() == z3.sat:
+                        viol = {"message": "%s [catalogue: %s]" % (msg, cname), "tags": ["rollover"], "model": {"catalogue": cname, "rollover_index": s.model().eval(nxt, model_completion=True).as_long()}}
+                    s.pop()
+                    if viol:
+                        break
+                if viol:
+                    break
+            if viol:
+                break
+        ob["queries"] += it.queries
+        ob["solver_s"] = round(time.time() - t0, 1)
+        ob["sample"] = {"paths_explored": npaths, "opaque_symbols": sorted(it.opaque_seen)[:12]}
+        if viol:
+            ob.update({"verdict": "violation", "message": viol["message"], "tags": viol["tags"], "counterexample": viol["model"]})
+        elif npaths < 6:
+            ob.update({"verdict": "inconclusive", "message": "only %d paths explored (vacuous?)" % npaths})
+        else:
+            ob.update({"verdict": "discharged", "distinct": npaths})
+    except rsparse.Unsupported as e:
+        ob.update({"verdict": "inconclusive", "message": "encoder met source it cannot encode: %s" % e})
+    return ob
+
+
+def run_batch(tier, seed):
+    """C02: a replicated batch that reaches the end of a log file.
+    LogInnerManager::handle_request (WriteBatch arm) and RaftLogManager::write_batch's answer handling evaluated from source;
+    LogInnerManager::write is an environment function that answers Success for the records that fit, SuccessToEnd for the record
+    that fills the file (symbolic position) and Failure for every later one - the contract of write(). Batch of k records starting
+    at a symbolic position of the list.
+    Oracle: the answer is Success when every record fitted and none filled the file; SuccessToEnd when the last record of the batch
+    filled it; otherwise FailureBatch(.., list, j) where j is the position of the first record that was not written (j < len), so
+    that the manager can roll over and hand exactly the unwritten rest to the next file - never a position behind the list."""
+    t0 = time.time()
+    k = 3 if tier == "quick" else 4
+    ob = {"engine": "smt", "harness": "s02_7_batch_at_the_end_of_a_file", "encodes_files": FILES, "queries": 0, "solver_s": 0.0, "distinct": 0,
+          "encodes": ["LogInnerManager::handle_request (WriteBatch arm)"],
+          "bound": "batches of %d records, written from position 0 or 1; the record that fills the file at every position or nowhere (symbolic)" % k}
+    try:
+        prog = load_program(FILES)
+        it = rseval.Interp(prog)
+        it.lenient = True
+        fillv, startv = z3.BitVec("record_that_fills_the_file", 8), z3.BitVec("first_position_to_write", 8)
+        handle = prog.methods[("LogInnerManager", "handle_request")]
+        state = {}
+
+        def write(interp, recv, args):
+            i = state["next"]
+            state["next"] += 1
+            state["written"].append(i) if (state["fill"] is None or i <= state["fill"]) else None
+            if state["fill"] is not None and i > state["fill"]:
+                return Ok(Enum("LogWriteMark", "Failure", None))
+            if state["fill"] is not None and i == state["fill"]:
+                return Ok(Enum("LogWriteMark", "SuccessToEnd", None))
+            return Ok(Enum("LogWriteMark", "Success", None))
+        it.models[("LogInnerManager", "write")] = write
+        it.models[("LogInnerManager", "get_end_index")] = lambda interp, recv, args: 1000 + len(state["written"])
+
+        def pick(var, options):
+            for j, o in enumerate(options[:-1]):
+                if it.branch(var == j):
+                    return o
+            return options[-1]
+
+        def thunk():
+            start = pick(startv, [0, 1])
+            fill = pick(fillv, [None] + list(range(start, k)))
+            state.update({"next": start, "fill": fill, "written": []})
+            lst = [Struct("LogRecordDto", {"index": 1000 + i, "term": 1, "value": [i]}) for i in range(k)]
+            mgr = Struct("LogInnerManager", {"last_term": 1})
+            r = it._invoke(handle, [mgr, Enum("RaftLogRequest", "WriteBatch", [lst, start])], self_ty="LogInnerManager")
+            return r, start, fill, list(state["written"])
+        paths = it.explore(thunk)
+        viol = None
+        seen_fill_last = 0
+        for pc, rr, exc in paths:
+            if exc is not None:
+                viol = {"message": "panic while a batch is written: %s" % exc, "tags": ["panic"], "model": {}}
+                break
+            r, start, fill, written = rr
+            what = "batch of %d records written from position %d, the record at position %s fills the file" % (k, start, fill)
+            if not (isinstance(r, Enum) and r.variant == "Ok" and isinstance(r.payload[0], Enum) and r.payload[0].variant == "WriteResult"):
+                viol = {"message": "the batch is not answered with a write result (%s)" % what, "tags": ["batch-answer"], "model": {"start": start, "fill": fill}}
+                break
+            res = r.payload[0].payload[0]
+            kind = res.variant if isinstance(res, Enum) else str(res)
+            if fill is None:
+                want = ("Success", None)
+            elif fill == k - 1:
+                want = ("SuccessToEnd", None)
+                seen_fill_last += 1
+            else:
+                want = ("FailureBatch", fill + 1)
+            got_pos = res.payload[3] if kind == "FailureBatch" else None
+            if (kind, got_pos) != want:
+                viol = {"message": "%s: the file answers %s%s, expected %s%s" % (what, kind, "" if got_pos is None else " (continue at position %s of %d)" % (got_pos, k), want[0],
+                                                                                     "" if want[1] is None else " (continue at position %d)" % want[1]),
+                        "tags": ["batch-continue-position" if kind == "FailureBatch" else "batch-answer"], "model": {"batch": k, "start": start, "fill": fill, "answer": kind, "continue_at": got_pos}}
+                break
+        ob["queries"] = it.queries
+        ob["solver_s"] = round(time.time() - t0, 1)
+        ob["sample"] = {"paths_explored": len(paths), "paths_where_the_last_record_fills_the_file": seen_fill_last, "opaque_symbols": sorted(it.opaque_seen)[:12]}
+        if viol:
+            ob.update({"verdict": "violation", "message": viol["message"], "tags": viol["tags"], "counterexample": viol["model"]})
+        elif len(paths) < 4:
+            ob.update({"verdict": "inconclusive", "message": "only %d paths explored (vacuous?)" % len(paths)})
+        else:
+            ob.update({"verdict": "discharged", "distinct": len(paths)})
+    except rsparse.Unsupported as e:
+        ob.update({"verdict": "inconclusive", "message": "encoder met source it cannot encode: %s" % e})
+    return ob
